@@ -83,7 +83,7 @@ def extra_scenarios(tier, seed):
 
 
 CHECK = PropertyCheck(
-    whole_run_clauses=('failed_flags_not_the_nan_rows', 'functions_reported_below_min_success'),
+    whole_run_clauses=('functions_withheld_although_enough_realizations_succeeded', 'failed_flags_not_the_nan_rows', 'functions_reported_below_min_success'),
     prop="C03", trace_module="Trace_Grad", drive=drive, model_runs=model_runs, extra_scenarios=extra_scenarios,
     rule=("Exhaustive fault enumeration by TLC: every subset of the R + R*P evaluations fails (R=2,P=2 quick: 64 masks; thorough adds "
           "3x2 and 2x3: 512 masks each) x NaN column x realization_min_success 0..R x perturbation_min_success 1..P x filter "
